@@ -44,6 +44,8 @@ def register(PROPS):
                         'x 6 paths (24576), rrules with 2 rules (5880).  Run end to end: 273 million sequences.',
         },
         'drivers': [
+            D('c02_zonemix', ['mode=rdate', 'maxlist=4'], ['mode=rdate', 'maxlist=5'], label='zonemix-rdate', shards=4),
+            D('c02_zonemix', ['mode=rdate', 'maxlist=3'], label='zonemix-rdate-asan', shards=4, variant='asan'),
             D('c03_mux', ['fam=plain', 'nmax=3', 'lmax=2'], ['fam=plain', 'nmax=3', 'lmax=3', '--deadline', '420'], label='plain'),
             # four streams: echs_evstrm_mux() overruns its 24-byte array from the 4th stream on (known finding); what a plain build does
             # after that is not reproducible, so that constructor gets its 4-stream configurations under ASan only (below)
